@@ -325,14 +325,15 @@ func textrtUnrep(m protoreflect.Message) (reason string, lossy string) {
 			if r2 != "" {
 				return true // expansion fails, printed as an ordinary message
 			}
-			if l2 != "" {
+			// "any_url" (finding FWD1) is reported only when nothing else makes the value lossy
+			if l2 != "" && (lossy == "" || lossy == "any_url") {
 				lossy = l2
 			}
-			if !textrtURLOK(x.Get(rtField(x, 1)).String()) {
-				lossy = "any_url"
-			}
-			if !rtAnyCanonical(x, em) && lossy == "" {
+			if !rtAnyCanonical(x, em) {
 				lossy = "any_noncanonical"
+			}
+			if !textrtURLOK(x.Get(rtField(x, 1)).String()) && lossy == "" {
+				lossy = "any_url"
 			}
 			return false
 		}
@@ -401,6 +402,18 @@ func textrtOne(c *Ctx, t *rtTarget, m protoreflect.Message, cfg textrtCfg) {
 		rtAnyTypes(m, map[protoreflect.FullName]bool{}, &extra)
 		id = rtSchemaOf(c, "textrt", t.md, extra)
 		val = msgDump(m)
+		// the model's validity predicate (hypothesis of the round-trip theorem) and its FWD1 exclusion
+		// against the harness's independent classification
+		cls := "v"
+		switch {
+		case reason != "":
+			cls = "nv"
+		case lossy == "any_url":
+			cls = "fwd1"
+		case lossy != "":
+			cls = "nv"
+		}
+		c.Case("textrt", "cls", append([]string{id}, val...), []string{cls})
 	}
 	for bits := 0; bits < 8; bits++ {
 		mo := textrtOpts(bits)
